@@ -68,6 +68,14 @@ Theorem C17_dataset_roundtrip fs d ic vs w :
 Proof. exact (dataset_roundtrip fs d ic vs w). Qed.
 Print Assumptions C17_dataset_roundtrip.
 
+(* ... in the form an application uses it: Cls.parse(obj.encode()) on the class's own descriptor *)
+Theorem C17_dataset_parse_wire fs vs w :
+  In fs nfd_models -> Forall2 (fun f v => fits (snd f) v) fs vs ->
+  dataset_wire fs vs = Ok w -> N.of_nat (length w) < two64 ->
+  dataset_parse fs w = Ok vs.
+Proof. exact (dataset_parse_wire fs vs w). Qed.
+Print Assumptions C17_dataset_parse_wire.
+
 (* ---- protocol ----------------------------------------------------------------------------------------------------- *)
 Section Protocol.
   Variable fe : kind -> proto.
